@@ -74,8 +74,11 @@ GEOM_ATTRS = {"x", "y", "x1", "y1", "x2", "y2", "cx", "cy", "r", "rx", "ry", "wi
 def el_bbox(el):
     """Bounding box (user units) of an output element from its own attributes."""
     a = el.attrs
-    f = lambda k, d=0.0: (vlib.fnum(a[k]) if k in a else d)
     n = el.name
+    # a value that is not a number (e.g. an unsplit "1,2") means: no box
+    if any(k in a and vlib.fnum(a[k]) is None for k in GEOM_ATTRS):
+        return None
+    f = lambda k, d=0.0: (vlib.fnum(a[k]) if k in a else d)
     if n in ("rect", "box", "image", "use"):
         if "width" not in a or "height" not in a:
             return None
